@@ -21,7 +21,7 @@ def payloads():
                 I5="abaab", I1022="ab" + X(1020), I1023="ab" + X(1021), I1024="ab" + X(1022), I2047="ab" + X(2045), I2048="ab" + X(2046))
 
 
-CHR = dict(c97=97, c120=120, c37=37, c0=0)
+CHR = dict(c97=97, c120=120, c37=37, c0=0, c233=233, c255=255)
 
 
 def to_script(hist):
@@ -52,8 +52,9 @@ def to_trace(hist, events):
         if ev.get("e") != "ds":
             continue
         o = hist[ev["line"] - ev["_base"] - 1] if "_base" in ev else None
-        r = dict(e="ds", op=ev["op"], s=ev.get("s", ""), len=ev.get("len", -7), cap=ev.get("cap", 0), strlen=ev.get("strlen", -7),
-                 nul=ev.get("nul", False), usable=ev.get("usable", 0), ret=ev.get("ret", ""), delta=ev.get("delta", 0))
+        # bytes 0xE9 / 0xFF are spelled Q / Z in the specification's alphabet (no payload contains those letters)
+        r = dict(e="ds", op=ev["op"], s=ev.get("s", "").replace("\u00e9", "Q").replace("\u00ff", "Z"), len=ev.get("len", -7), cap=ev.get("cap", 0), strlen=ev.get("strlen", -7),
+                 nul=ev.get("nul", False), usable=ev.get("usable", 0), ret=ev.get("ret", "").replace("\u00e9", "Q").replace("\u00ff", "Z"), delta=ev.get("delta", 0))
         r.update(pos=o["pos"], len0=o["len"], p=o["p"], q=o["q"], c=o["c"], k=o["k"], a=o["a"])
         tr.append(r)
     return tr
